@@ -1,6 +1,7 @@
 import CoercionModel.Proofs.Validate
 import CoercionModel.Model.SkeletonsMore
 import CoercionModel.Generated.F12
+import CoercionModel.Proofs.TranslatedValidate
 set_option linter.unusedSimpArgs false
 /-
   C16 — Submit admits exactly the well-formed plans; rejects leave no trace.
@@ -82,5 +83,23 @@ set_option maxRecDepth 100000 in
 /-- the code this property's model mirrors still has the shape the model was written against (control-flow
     skeletons regenerated from /repo on every run, Model/SkeletonsMore) -/
 theorem facts_model_skeleton : Generated.F12.validate = SkeletonsMore.validate := by decide +kernel
+
+/-! ### translated code: the validate methods, regenerated from workflow.go on every run (Generated/T5.lean) -/
+
+/-- the rules each `validate` method applies, in source order with the first error winning, translated from the Go
+    source over the observation flags, are the node rules of the model -/
+theorem translated_rules (keys : List Nat) :
+    (∀ p, Generated.T5.checkPlan keys p = checkPlan keys p) ∧ (∀ c, Generated.T5.checkChecks keys c = checkChecks keys (some c)) ∧
+    (∀ b, Generated.T5.checkBlock keys b = checkBlock keys b) ∧ (∀ q, Generated.T5.checkSeq keys q = checkSeq keys q) ∧
+    (∀ a, Generated.T5.checkAction keys a = checkAction keys a) :=
+  ⟨TranslatedValidate.checkPlan_eq keys, TranslatedValidate.checkChecks_eq keys, TranslatedValidate.checkBlock_eq keys,
+   TranslatedValidate.checkSeq_eq keys, TranslatedValidate.checkAction_eq keys⟩
+
+/-- … and the model's breadth-first order is `Validate`'s queue discipline applied to the validators the translated
+    methods return: every level is what the previous level's methods handed back, in order (no child is skipped) -/
+theorem translated_order (p : VPlan) :
+    level1 p = TranslatedValidate.kidsNode (.plan p) ∧ level2 p = (level1 p).flatMap TranslatedValidate.kidsNode ∧
+    level3 p = (level2 p).flatMap TranslatedValidate.kidsNode :=
+  TranslatedValidate.levels_are_queue_order p
 
 end Coercion.C16
